@@ -141,6 +141,8 @@ func c04(r *core.Run) {
 	c04Equiv(r)
 	c04Pres(r)
 	c03GateComm(r, "C04.COMMZ")
+	// 'preserved' by fingerprint equality rests on the normalisations not merging different behaviour
+	c03GateSwap(r, "C04.SWAPGATE")
 }
 
 // readsSuccs reports whether fn (or callees in pkg/diff, depth 2) reads BasicBlock.Succs/Preds.
